@@ -26,6 +26,7 @@ type Solutions struct {
 	next   <-chan *engine.Env
 	err    error
 	closed bool
+	done   bool
 }
 
 // Close closes the Solutions and terminates the search for other solutions.
@@ -41,12 +42,15 @@ func (s *Solutions) Close() error {
 // Next prepares the next solution for reading with the Scan method. It returns true if it finds another solution,
 // or false if there's no further solutions or if there's an error.
 func (s *Solutions) Next() bool {
-	if s.closed {
+	if s.closed || s.done {
 		return false
 	}
 	s.more <- true
 	var ok bool
 	s.env, ok = <-s.next
+	if !ok {
+		s.done = true
+	}
 	return ok
 }
 
